@@ -49,7 +49,7 @@ fn brackets<const N: usize>(n: usize, tail: u8) -> [u8; N] { let mut b = [b'['; 
 //# {"id":"c02_args_size_t_arr1","props":["C02"],"tier":"quick","cap":900,"bound":"all method descriptors ([?)V: an array of long/double counts one slot; unwind 8","fns":["MethodDescriptorSlice::get_arguments_size"]}
 //# {"id":"c02_args_size_t_arr2","props":["C02"],"tier":"thorough","cap":2400,"bound":"all method descriptors (?[?)V; unwind 9","fns":["MethodDescriptorSlice::get_arguments_size"]}
 //# {"id":"c02_args_size_t_arr3","props":["C02"],"tier":"thorough","cap":2400,"bound":"all method descriptors ([??)V; unwind 9","fns":["MethodDescriptorSlice::get_arguments_size"]}
-//# {"id":"c02_args_size_t_obj","props":["C02"],"tier":"quick","cap":900,"bound":"all method descriptors (L?;?)V: an object parameter followed by a one-byte parameter; unwind 9","fns":["MethodDescriptorSlice::get_arguments_size"]}
+//# {"id":"c02_args_size_t_obj","props":["C02"],"tier":"thorough","cap":2400,"bound":"all method descriptors (L?;?)V: an object parameter followed by a one-byte parameter; unwind 9","fns":["MethodDescriptorSlice::get_arguments_size"]}
 //# {"id":"c16_dims_256","props":["C16","C18"],"tier":"thorough","cap":3600,"bound":"the strings [*256 ? (symbolic element byte): FieldDescriptorSlice::parse rejects them and does not overflow; unwind 260","fns":["duke::tree::descriptor::read_field_type","FieldDescriptorSlice::parse"]}
 //# {"id":"c18_dims_255","props":["C18","C16"],"tier":"thorough","cap":3600,"bound":"the strings [*255 ? (symbolic element byte): ArrClassName::is_valid accepts exactly the primitive element types; unwind 260","fns":["duke::tree::names::is_valid_arr_class_name","read_field_type"]}
 proofs! {
